@@ -554,6 +554,12 @@ Theorem aarg_of_spec : forall e,
 Proof. destruct e; reflexivity. Qed.
 Theorem negative_literal_is_runtime : forall z, (z < 0)%Z -> aarg_of (MLit (VInt z)) = ARun.
 Proof. intros z H. simpl. destruct (Z.leb_spec 0 z); [lia | reflexivity]. Qed.
+(* an argument that is neither one constant nor a name is a run-time argument whatever it evaluates to, and it is
+   evaluated to that value *)
+Theorem computed_expression_is_runtime : forall v, aarg_of (MComputed v) = ARun.
+Proof. reflexivity. Qed.
+Theorem computed_expression_value : forall names v, expr_of names (MComputed v) = ELit v.
+Proof. reflexivity. Qed.
 
 (* ------------------------------------------------------------------ the whole tree *)
 (* every function mentioned in a statement, at any depth, is a node of the analysis tree (analysed, or - for a later
